@@ -214,6 +214,9 @@ def run_case(case):
             h0.exportObject(obj)
             h.exportObject(obj)
             h0.unexportObject('/props')
+        elif len(case['ops']) % 4 == 1:
+            from . import c10
+            h.exportObject(c10._plain_for(O, obj))        # reaches IDBusObject through a registered adapter
         else:
             h.exportObject(obj)
         # a sibling: another instance of the same class with values of its own, exported next to the first; whatever is
